@@ -348,6 +348,8 @@ def run(ctx):
                                                                       m[max(0, k - 6):k + 6], im[max(0, k - 6):k + 6]))
     if (bad or bad2 or bad is None or bad2 is None or not ok) and not ctx.violations:
         search(ctx)
+    if not ctx.quick():
+        real_processes(ctx)
 
 
 def report(ctx, failures):
@@ -405,7 +407,68 @@ def search(ctx):
     report(ctx, fails)
 
 
+def real_processes(ctx):
+    """thorough tier, supporting exploration: real master + workers with short timeouts.  Idle healthy workers must
+    survive 3 timeouts; a worker stopped with SIGSTOP, one blocked in the application (sync), must be killed and
+    replaced within timeout + a few seconds."""
+    import os
+    import signal as sg
+    import time
+    import lib_realproc as R
+    notes = []
+    for cls in H.CLASSES:
+        for timeout in (1, 2, 3):
+            srv = R.Server(workers=2, worker_class=cls, timeout=timeout)
+            try:
+                if srv.wait_workers(2, 15) is None:
+                    notes.append("%s timeout=%d: the workers did not start" % (cls, timeout))
+                    continue
+                first = set(srv.workers()[0])
+                time.sleep(3 * timeout + 1.5)
+                now = set(srv.workers()[0])
+                killed = "WORKER TIMEOUT" in srv.logtext()
+                ctx.hist("real_idle", "%s t=%d %s" % (cls, timeout, "killed" if killed or now != first else "survived"))
+                if killed or now != first:
+                    text = "real processes: idle healthy %s workers with timeout=%d were killed for inactivity" % (cls, timeout)
+                    if cls != "sync" and timeout == 1:
+                        ctx.violation(text, {}, key=KEY_D19)
+                    else:
+                        notes.append(text)
+                    continue
+                # hang by SIGSTOP
+                victim = sorted(now)[0]
+                os.kill(victim, sg.SIGSTOP)
+                t = srv.wait_for(lambda: victim not in srv.workers()[0] and len(srv.workers()[0]) == 2 and not srv.workers()[1], timeout + 8)
+                ctx.hist("real_sigstop", "%s t=%d %s" % (cls, timeout, "replaced in %.1fs" % t if t is not None else "NOT replaced"))
+                if t is None:
+                    try:
+                        os.kill(victim, sg.SIGCONT)
+                    except OSError:
+                        pass
+                    notes.append("%s timeout=%d: a SIGSTOPped worker was not killed and replaced within timeout + 8 s" % (cls, timeout))
+                elif t > timeout + 5:
+                    notes.append("%s timeout=%d: a SIGSTOPped worker was replaced only after %.1f s" % (cls, timeout, t))
+                # blocked application (sync only: for the others a blocked handler is not a hang)
+                if cls == "sync":
+                    import threading
+                    cur = set(srv.workers()[0])
+                    th = threading.Thread(target=lambda: srv.request("/sleep/60", timeout=timeout + 10), daemon=True)
+                    th.start()
+                    t = srv.wait_for(lambda: len(cur - set(srv.workers()[0])) >= 1 and len(srv.workers()[0]) == 2, timeout + 8)
+                    ctx.hist("real_blocked_app", "sync t=%d %s" % (timeout, "replaced in %.1fs" % t if t is not None else "NOT replaced"))
+                    if t is None:
+                        notes.append("sync timeout=%d: a worker blocked in the application was not killed and replaced" % timeout)
+            finally:
+                srv.stop()
+    ctx.extra["real_process_notes"] = notes
+    for n in notes:
+        ctx.violation("real processes (supporting exploration): " + n, {"kind": "real-process", "note": n})
+
+
 def replay(rep):
+    if rep.get("kind") == "real-process":
+        print("real-process observation (not replayable in-process):", rep.get("note"))
+        return 1
     sc = rep["scenario"]
     for s in sc["slots"]:
         if s.get("events") is not None:
